@@ -104,9 +104,42 @@ func TestC05(t *testing.T) {
 		// One case in six: a long-lived link - the sender's link sequence number is
 		// about to wrap, so the batch crosses the wrap and the key rollover.
 		nearWrap := false
+		var earlier [][]byte // link frames of an earlier key epoch of this link
 		if enc := peering.VerifLinkEncryption(sendEnd.Link); enc != nil && c.Chance("near-wrap", 1, 6) {
 			back := uint32(c.Int("near-wrap.back", 2, 30))
 			h := state.EncryptionSessionTestHelper{EncryptionSession: enc}
+			if c.Bool("near-wrap.second") {
+				// The link is older still: it has crossed a wrap before (both ends
+				// rolled their keys over on undisturbed traffic) and stands before
+				// its second one. The frames of the first crossing are kept: the
+				// attacker recorded them.
+				h.ReglSetOut(0xFFFF_FFFF - 2)
+				for i := 0; i < 8; i++ {
+					f, err := sender.Builder.NewFrameV1(sender.IP(), receiver.IP(), frame.NetworkTraffic, nil, []byte(fmt.Sprintf("first key epoch crossing, frame %d", i)), nil)
+					if err != nil {
+						c.Fatalf("frame: %v", err)
+					}
+					_ = sendEnd.Link.Send(f)
+					if sendEnd.WaitParked(1) != nil {
+						c.Class("inconclusive-time-budget")
+						return
+					}
+					lf := sendEnd.Take(0)
+					earlier = append(earlier, lf)
+					if err := recvEnd.Write(lf); err != nil {
+						c.Class("inconclusive-time-budget")
+						return
+					}
+					select {
+					case fr := <-receiver.SwitchIn:
+						fr.ReturnToPool()
+					case <-time.After(wire.Budget):
+						c.Fatalf("undisturbed traffic across the first wrap of the link sequence number: frame %d of 8 (number %d) did not arrive", i, binary.BigEndian.Uint32(lf[4:8]))
+					}
+				}
+				handshakeBytes = len(sendEnd.Written)
+				c.Class("link-before-its-second-wrap")
+			}
 			h.ReglSetOut(0xFFFF_FFFF - back)
 			nearWrap = true
 			c.Class("link-sequence-wraps-in-batch")
@@ -329,6 +362,15 @@ func TestC05(t *testing.T) {
 			}
 			if cut {
 				break
+			}
+		}
+
+		// Recorded frames of the link's previous key epoch come back.
+		if len(earlier) > 0 && !cut {
+			for k, n := 0, c.Int("earlier.replays", 0, 3); k < n && len(stream) > 0; k++ {
+				x := c05Chunk{data: earlier[c.Pick("earlier.frame", len(earlier))], orig: -1, what: "frame-of-an-earlier-key-epoch"}
+				at := c.Pick("earlier.at", len(stream)+1)
+				stream = append(stream[:at], append([]c05Chunk{x}, stream[at:]...)...)
 			}
 		}
 
